@@ -557,9 +557,51 @@ func c16(c *Ctx) {
 					if init == nil || step == 0 {
 						return
 					}
-					for _, ref := range referrers(ph) {
+					// the counting value: the phi itself (from 0) or, in the form range loops compile to, phi+1 (from -1)
+					cands := []ssa.Value{ph}
+					minusOneInit := false
+					if k, isC := constInt(init); isC && k == -1 && step == 1 {
+						minusOneInit = true
+						for _, e := range ph.Edges {
+							if b := asBinOp(e, token.ADD); b != nil && b.X == ssa.Value(ph) {
+								cands = append(cands, b)
+							}
+						}
+					}
+					// rotated form (range over an int): phi from 0, the body is entered under "0 < counter" and
+					// repeated while phi+1 < counter
+					rotated := false
+					if k, isC := constInt(init); isC && k == 0 && step == 1 {
+						eachInstr(g, func(in2 ssa.Instruction) {
+							if pre, ok := in2.(*ssa.BinOp); ok && pre.Op == token.LSS && isCounter(pre.Y) {
+								if z, isZ := constInt(pre.X); isZ && z == 0 {
+									rotated = true
+								}
+							}
+						})
+						if rotated {
+							for _, e := range ph.Edges {
+								if b := asBinOp(e, token.ADD); b != nil && b.X == ssa.Value(ph) {
+									cands = append(cands, b)
+								}
+							}
+						}
+					}
+					var refs []ssa.Instruction
+					for _, cnd := range cands {
+						refs = append(refs, referrers(cnd)...)
+					}
+					for _, ref := range refs {
 						b, ok := ref.(*ssa.BinOp)
 						if !ok {
+							continue
+						}
+						if minusOneInit && b.Op == token.LSS && b.X != ssa.Value(ph) && isCounter(b.Y) {
+							okCnt = true // for range counter (phi+1 < counter, phi from -1)
+							continue
+						}
+						if rotated && b.Op == token.LSS && b.X != ssa.Value(ph) && isCounter(b.Y) {
+							okCnt = true // rotated loop: entered under 0 < counter, repeated while phi+1 < counter
 							continue
 						}
 						zeroInit := false
